@@ -78,7 +78,7 @@ TEXT = {
   "technique": "Lean 4 + Mathlib theorem over R (Complex.arg_real_mul) + translator + bit-level correspondence + falsifier",
  },
  "C20": {
-  "text": "PARTIAL. Proved over R: the zone offset enters only the Julian Day of local midnight, as -d/24; get_hour_angle, the transit fraction and the parallax hour angle depend on longitude and sidereal time only through their sum (360-periodicity of the normalisations proved), so a site moved east by x with sidereal times lower by x has identical hours. Not proved: the remaining 10 s (the Sun's motion during the shifted interval) - metamorphic falsifier through the public API.",
+  "text": "PARTIAL. Proved for every scalar type: the day's computation factors through the Julian Day object of local midnight (no other use of the zone offset); over R: that Julian Day moves by -d/24; get_hour_angle, the transit fraction and the parallax hour angle depend on longitude and sidereal time only through their sum (360-periodicity of the normalisations proved), so a site moved east by x with sidereal times lower by x has identical hours. Not proved: the remaining 10 s (the Sun's motion during the shifted interval) - metamorphic falsifier through the public API.",
   "design_ref": "DESIGN.md §7 C20",
   "note": "10-second clause explored; domain GMT within 4 h of lon/15 and shifts of at most 1 h (the property's parenthetical: the Sun's own motion during the shifted interval).",
   "technique": "Lean 4 + Mathlib theorems over R + correspondence + metamorphic falsifier",
